@@ -237,6 +237,20 @@ def main(argv):
                              (len(sim), g.tail()))
     sim = [h for h in sim if hist_ok(h)]
     hists += sim
+    # (c) directed: every ordered triple of a few related locations (names
+    #     that are string prefixes of each other, with characters that sort
+    #     before and after the separator) - commonprefix / uniquetrees of
+    #     three paths are evaluated at the end of each history
+    rel = [['a'], ['a.b'], ['a b'], ['a', 'b'], ['a.b', 'b'], ['a', 'a.b'],
+           ['b'], ['a', 'b', 'a'], ['a b', 'a']]
+    n_tri0 = len(hists)
+    for x in rel:
+        for y in rel:
+            for z in rel:
+                hists.append([{'op': 'New', 'root': 'srcdir', 'destdir': False,
+                               'dirarg': 'none', 'raw': {
+                                   'drive': False, 'abs': False, 'comps': c}}
+                              for c in (x, y, z)])
 
     # 3. replay into the real classes, all separator styles, both flavours
     traces = []
@@ -247,6 +261,8 @@ def main(argv):
                     for s in ('slash', 'back', 'mixed')]
         if hi < n_new and len(hist[0]['raw']['comps']) >= 3:
             variants = [variants[rnd.randrange(6)], variants[rnd.randrange(6)]]
+        if hi >= n_tri0:
+            variants = [('posix', 'slash'), ('windows', 'back')]
         for flavour, style in variants:
             tid += 1
             events = replay(impl, flavour, style, hist)
